@@ -5,9 +5,9 @@ pub assume_specification<T: Clone> [<[T]>::to_vec] (s: &[T]) -> (r: Vec<T>)
 pub assume_specification [u8::to_ascii_lowercase] (b: &u8) -> (r: u8)
     ensures r == (if 65 <= *b <= 90 { (*b + 32) as u8 } else { *b });
 
-// R8:extend_vec      `a.extend(b)` with b: Vec<u8>   (appends b)
+// R8:extend_vec      `a.extend(b)` with b: Vec<T>   (appends b)
 #[verifier::external_body]
-pub fn idiom_extend_vec(a: &mut Vec<u8>, b: Vec<u8>)
+pub fn idiom_extend_vec<T>(a: &mut Vec<T>, b: Vec<T>)
     ensures final(a)@ == old(a)@ + b@
 { a.extend(b) }
 // R8:extend_ref      `a.extend(&b)` with b: Vec<u8>
